@@ -698,7 +698,17 @@ func genC16(out, tier string, rng *rand.Rand) {
 	for _, r := range rs {
 		sink.AddPreV("seq", "check_all", "(list call * list bresp)", r.c, r.text, r.js, progNontrivial(r.c))
 	}
-	sink.Close(fmt.Sprintf("(a) a forced GC pass over %d rows (union of max-versions 1 and max-age 1000 s, the newest cells exactly at the cut-off; every 7th row loses all cells; a rule-less family) interleaved with a writer (MutateRow, ReadModifyWriteRow, a new row) acting during the first or second lock hand-over on rows already / not yet visited, and schedules where the writer holds the lock when the pass wants it; 3 engines; compared step by step with the interleaving model, then a full read. (b) tag policy/boundary: sequential random programs with random GC rule trees and forced passes, and cells exactly at / around the max-age cut-off. non-trivial = a blocked step (a) or a successful write and non-empty read (b)", nrows), false)
+	{
+		// the background loop's pass (not forced) runs only on a table that is dirty and has been neither read
+		// nor written for the quiescence period (5 minutes): with the table's last use backdated, the pass
+		// collects when both are old and leaves the table alone when either is recent or nothing was written
+		for _, en := range engines() {
+			pc := c16Quiescence(en)
+			js, _ := json.Marshal(pc)
+			sink.AddOracleOnly(pc, string(js), js, true)
+		}
+	}
+	sink.Close(fmt.Sprintf("(c, oracle only: the unforced pass of the background loop with the table's last read / write backdated to both sides of the quiescence period: it collects iff the table is dirty and was neither read nor written for 5 minutes) (a) a forced GC pass over %d rows (union of max-versions 1 and max-age 1000 s, the newest cells exactly at the cut-off; every 7th row loses all cells; a rule-less family) interleaved with a writer (MutateRow, ReadModifyWriteRow, a new row) acting during the first or second lock hand-over on rows already / not yet visited, and schedules where the writer holds the lock when the pass wants it; 3 engines; compared step by step with the interleaving model, then a full read. (b) tag policy/boundary: sequential random programs with random GC rule trees and forced passes, and cells exactly at / around the max-age cut-off. non-trivial = a blocked step (a) or a successful write and non-empty read (b)", nrows), false)
 }
 
 // bigTableSetup: a table large enough to live in leveldb table files (24 rows of 1050 cells of 600
